@@ -28,8 +28,15 @@ Fixpoint readline (s : stream) : line * stream :=
   | None :: r => ([], r)
   | Some t :: r => let p := readline r in (t :: fst p, snd p)
   end.
+(* white space as np.fromfile sees it: end-of-line markers, and the GAP marker [Word ""] — the empty piece that
+   str.split(" ") yields between two adjacent blanks (Model/C16Text.v): an unreadable piece for readline() sites, nothing but
+   white space for np.fromfile *)
 Fixpoint skip_ws (s : stream) : stream :=
-  match s with None :: r => skip_ws r | _ => s end.
+  match s with
+  | None :: r => skip_ws r
+  | Some (Word EmptyString) :: r => skip_ws r
+  | _ => s
+  end.
 
 Definition val_tok (t : token) : option D :=
   match t with Num x => Some (parse x) | Int z => Some (ofZ z) | Word _ => None end.
